@@ -98,9 +98,9 @@ POP_NAME = ("whole optimizer ParallelTempering / ParticleSwarm / SpiralOptimizat
             "driver model must emit the same positions, rows, trace, best result, the outer and every member's tracker and consume the tape exactly")
 
 
-def pop_stage(chk, r, n, constraint_p=0.4, nonfinite_p=0.0):
+def pop_stage(chk, r, n, constraint_p=0.4, nonfinite_p=0.0, names=None):
     sps = []
-    for name in loc.POP:
+    for name in (names or loc.POP):
         for _ in range(n):
             sp = bkgen.scenario(r, name, constraint_p=constraint_p, nonfinite_p=nonfinite_p)
             if name == "ParallelTemperingOptimizer":
